@@ -567,7 +567,7 @@ def A3_A5_shared(rep, flow: Flow, entry_fqs):
                     unc = set()
                     allp = set()
                     for vk in _value_keys(r, val):
-                        uncovered_params(vk, cores, unc, allp)
+                        uncovered_params(vk, cores, unc, allp, (r, flow.prog, f))
                     unfaithful = [c for c in comps if _unfaithful(c)]
                     missing = sorted(unc)
                     vparams = allp
@@ -697,24 +697,82 @@ def covers(c, t):
     return False
 
 
-def uncovered_params(k, cores, unc, allp):
+def _fields_read(prog, fq, cls):
+    """names of the instance fields of cls that the closure of the opaque callee fq may read"""
+    import ast as _ast
+    try:
+        f = prog.func(fq)
+    except AnalysisError:
+        return None
+    fields = set()
+    for m in cls.methods.values():
+        for n in _ast.walk(m.node):
+            if isinstance(n, _ast.Attribute) and isinstance(n.ctx, _ast.Store) and isinstance(n.value, _ast.Name) and m.params and n.value.id == m.params[0]:
+                fields.add(n.attr)
+    attrs = set()
+    for g in prog.closure([f], may=True):
+        for n in _ast.walk(g.node):
+            if isinstance(n, _ast.Attribute) and isinstance(n.ctx, _ast.Load):
+                attrs.add(n.attr)
+            if isinstance(n, _ast.Call) and _ast.unparse(n.func) in ("getattr", "vars", "copy.copy", "copy.deepcopy", "deepcopy"):
+                return None          # reflective access: the read-set is not the set of attribute names
+    return attrs & fields
+
+
+def uncovered_params(k, cores, unc, allp, ctx=None):
     """every occurrence of a parameter in a cached value must lie inside an occurrence of one of the key's
-    components (a component stands for itself); what a file's text says is determined by the file's name"""
+    components (a component stands for itself); what a file's text says is determined by the file's name.
+    An object handed WHOLE to a callee the interpreter does not follow is covered when every field of it that the
+    callee's closure may read is (faithfully) a component of the key; ctx = (path result, program, entry function)"""
     if not isinstance(k, tuple) or not k:
         return
     if k in cores:
         for p in _leaves(k, "param"):
             allp.add(p[1])
         return
+    if k[0] == "call" and len(k) >= 3 and isinstance(k[1], str) and ctx is not None:
+        r, prog, entry = ctx
+        for x in k[2:]:
+            cls, fieldkey = None, None
+            if isinstance(x, tuple) and len(x) == 2 and x[0] == "param" and entry is not None:
+                a = next((p for p in entry.node.args.posonlyargs + entry.node.args.args + entry.node.args.kwonlyargs if p.arg == x[1]), None)
+                cls = prog.ann_class(entry.module, a.annotation) if a is not None and a.annotation is not None else None
+                fieldkey = (lambda f, x=x: [("attr", x, f)])
+            elif isinstance(x, tuple) and len(x) >= 2 and x[0] == "new" and isinstance(x[1], str):
+                objs = [o for o in r.heap.values() if o.kind == "record" and o.cls is not None and o.cls.name == x[1]
+                        and ("new", o.cls.name) + tuple(vkey(a) for a in o.meta.get("ctor_args", ())) == x]
+                if objs:
+                    cls = objs[0].cls
+                    fieldkey = (lambda f, o=objs[0]: list(_value_keys(r, o.fields[f])) if f in o.fields else None)
+            if cls is None:
+                uncovered_params(x, cores, unc, allp, ctx)
+                continue
+            reads = _fields_read(prog, k[1], cls)
+            if reads is None:
+                raise AnalysisError(f"cache value passes a {cls.name} object whole to {k[1]}, whose closure accesses objects reflectively: which fields the cached value depends on cannot be decided")
+            for f in sorted(reads):
+                fks = fieldkey(f)
+                if fks is None:
+                    raise AnalysisError(f"cache value passes a {cls.name} object whole to {k[1]}, which may read its field .{f}; the field's value is not modelled")
+                for fk in fks:
+                    if fk in cores:
+                        for p in _leaves(fk, "param"):
+                            allp.add(p[1])
+                        continue
+                    if isinstance(fk, tuple) and fk and fk[0] == "attr" and isinstance(fk[1], tuple) and fk[1] and fk[1][0] == "param":
+                        # a field of the caller's object that the callee may read and the key does not contain
+                        raise AnalysisError(f"the cached value is computed by {k[1]} from the whole `{fk[1][1]}` object; its closure may read `.{f}`, which is not a component of the cache key: whether the value really depends on it is outside A2 (no verdict)")
+                    uncovered_params(fk, cores, unc, allp, ctx)
+        return
     if k[0] == "param" and len(k) == 2:
         unc.add(k[1])
         allp.add(k[1])
         return
     if k[0] == "filetext":
-        uncovered_params(k[1], cores, unc, allp)
+        uncovered_params(k[1], cores, unc, allp, ctx)
         return
     for x in k[1:]:
-        uncovered_params(x, cores, unc, allp)
+        uncovered_params(x, cores, unc, allp, ctx)
 
 
 def _value_keys(r, v, seen=None, depth=0):
